@@ -401,10 +401,11 @@ Theorem duplicate_simple_is_noop : forall s e e' u s1 sus, cu_wf s -> cu_simple_
 Proof.
   intros s e e' u s1 sus W K H. unfold cu_apply. destruct u; cbn [cu_simple_kind] in K; try discriminate; cbn [cu_tx] in H |- *.
   - (* MailboxCreated *)
+    set (nm := cu_canon_name name) in *.
     destruct (rid =? cu_recovery_rid) eqn:Er; [discriminate|].
     destruct (cu_find_mb_rid s rid) eqn:Ef.
     + injection H as H1 H2. subst. rewrite Ef. exists []. auto.
-    + destruct (e_uidv e) as [|v vs]; [discriminate|]. destruct (cu_find_mb_name s name); [discriminate|].
+    + destruct (e_uidv e) as [|v vs]; [discriminate|]. destruct (cu_find_mb_name s nm); [discriminate|].
       injection H as H1 H2. subst s1 sus. unfold cu_find_mb_rid at 1. cbn [st_mb].
       unfold cu_find_mb_rid in Ef. rewrite (find_app_none _ _ _ Ef). cbn [find mb_rid]. rewrite N.eqb_refl. exists []. auto.
   - (* MailboxDeleted *)
@@ -414,28 +415,29 @@ Proof.
       rewrite find_filter_none; [exists []; auto|]. intros x Hx. rewrite Hx. reflexivity.
     + injection H as H1 H2. subst. rewrite Ef. exists []. auto.
   - (* MailboxUpdated *)
+    set (nm := cu_canon_name name) in *.
     destruct (rid =? cu_recovery_rid) eqn:Er; [discriminate|].
     destruct (cu_find_mb_rid s rid) as [m|] eqn:Ef.
     2:{ injection H as H1 H2. subst. rewrite Ef. exists []. auto. }
-    destruct (mb_name m =? cu_canon_name name) eqn:En.
+    destruct (mb_name m =? nm) eqn:En.
     { injection H as H1 H2. subst. rewrite Ef, En. exists []. auto. }
-    destruct (existsb (fun x => (mb_name x =? name) && negb (mb_rid x =? rid)) (st_mb s)) eqn:Ec; [discriminate|].
+    destruct (existsb (fun x => (mb_name x =? nm) && negb (mb_rid x =? rid)) (st_mb s)) eqn:Ec; [discriminate|].
     injection H as H1 H2. subst s1 sus.
-    set (g := fun x => if mb_rid x =? rid then mkMb (mb_id x) (mb_rid x) name (mb_uidv x) (mb_sub x) else x).
+    set (g := fun x => if mb_rid x =? rid then mkMb (mb_id x) (mb_rid x) nm (mb_uidv x) (mb_sub x) else x).
     assert (Hg : forall x, (mb_rid (g x) =? rid) = (mb_rid x =? rid)).
     { intros x. unfold g. destruct (mb_rid x =? rid) eqn:E; [cbn [mb_rid]; exact E|exact E]. }
     unfold cu_find_mb_rid at 1. unfold cu_with_mb at 1. cbn [st_mb]. rewrite (find_map_pres _ g _ Hg).
     unfold cu_find_mb_rid in Ef. rewrite Ef. cbn [option_map].
-    assert (Hgm : g m = mkMb (mb_id m) (mb_rid m) name (mb_uidv m) (mb_sub m)).
+    assert (Hgm : g m = mkMb (mb_id m) (mb_rid m) nm (mb_uidv m) (mb_sub m)).
     { unfold g. apply find_some in Ef. destruct Ef as [_ Ef]. rewrite Ef. reflexivity. }
-    rewrite Hgm. cbn [mb_name]. destruct (name =? cu_canon_name name); [exists []; auto|].
+    rewrite Hgm. cbn [mb_name]. destruct (nm =? nm); [exists []; auto|].
     rewrite existsb_false.
     2:{ intros x Hx. unfold cu_with_mb in Hx. cbn [st_mb] in Hx. apply in_map_iff in Hx. destruct Hx as [y [Hy Hiny]]. subst x.
         rewrite Hg. destruct (mb_rid y =? rid) eqn:E; [rewrite andb_false_r; reflexivity|].
         unfold g. rewrite E. rewrite andb_true_r.
-        pose proof (existsb_exists (fun x => (mb_name x =? name) && negb (mb_rid x =? rid)) (st_mb s)) as Hex.
-        destruct (mb_name y =? name) eqn:Eny; [|reflexivity].
-        assert (existsb (fun x => (mb_name x =? name) && negb (mb_rid x =? rid)) (st_mb s) = true).
+        pose proof (existsb_exists (fun x => (mb_name x =? nm) && negb (mb_rid x =? rid)) (st_mb s)) as Hex.
+        destruct (mb_name y =? nm) eqn:Eny; [|reflexivity].
+        assert (existsb (fun x => (mb_name x =? nm) && negb (mb_rid x =? rid)) (st_mb s) = true).
         { apply Hex. exists y. split; [exact Hiny|]. rewrite Eny, E. reflexivity. }
         congruence. }
     exists []. split; [|reflexivity]. f_equal. f_equal. unfold cu_with_mb. cbn [st_mb st_ms st_me st_seq st_nextmb st_dsub].
@@ -528,9 +530,9 @@ Qed.
 
 (* ---------- effects of valid updates ---------- *)
 Lemma mailbox_created_effect : forall s e rid name v vs,
-  rid <> cu_recovery_rid -> cu_find_mb_rid s rid = None -> cu_find_mb_name s name = None -> e_uidv e = v :: vs ->
+  rid <> cu_recovery_rid -> cu_find_mb_rid s rid = None -> cu_find_mb_name s (cu_canon_name name) = None -> e_uidv e = v :: vs ->
   cu_apply s e (UMailboxCreated rid name) =
-    (mkSt (st_mb s ++ [mkMb (st_nextmb s) rid name v true]) (st_ms s) (st_me s) (st_seq s) (st_nextmb s + 1) (st_dsub s), AOk, []).
+    (mkSt (st_mb s ++ [mkMb (st_nextmb s) rid (cu_canon_name name) v true]) (st_ms s) (st_me s) (st_seq s) (st_nextmb s + 1) (st_dsub s), AOk, []).
 Proof.
   intros s e rid name v vs H1 H2 H3 H4. unfold cu_apply. cbn [cu_tx]. apply N.eqb_neq in H1. rewrite H1, H2, H4, H3. reflexivity.
 Qed.
@@ -842,4 +844,75 @@ Proof.
   - rewrite Hgid. intros mb. rewrite <- Eb1. unfold cu_translate, cu_ms_mailboxes, cu_upd_ms, cu_with_ms. cbn [st_mb st_me].
     rewrite Amb. exact (Aset mb).
   - intros f. unfold g. rewrite N.eqb_refl. cbn [ms_flags]. symmetry. apply nf_mem.
+Qed.
+
+(* ---------- order of the state updates of MessageMailboxesUpdated: membership first, flags afterwards ---------- *)
+Definition su_membership (u : cu_su) : bool := match u with SuExists _ _ | SuExpunge _ _ => true | _ => false end.
+Definition su_flag (u : cu_su) : bool := match u with SuFlagAdd _ _ | SuFlagRem _ _ => true | _ => false end.
+
+Lemma add_each_sus : forall l s ms rid s' sus, cu_add_each s ms rid l = Some (s', sus) -> forallb su_membership sus = true.
+Proof.
+  induction l as [|mb t IH]; intros s ms rid s' sus H; cbn [cu_add_each] in H.
+  - injection H as _ H. subst. reflexivity.
+  - destruct (cu_add_one s mb ms rid) as [[s1 uid]|]; [|discriminate].
+    destruct (cu_add_each s1 ms rid t) as [[s2 r]|] eqn:E; [|discriminate]. injection H as _ H. subst sus.
+    cbn [forallb su_membership]. apply (IH _ _ _ _ _ E).
+Qed.
+
+Lemma remove_all_sus : forall mbs s ms, forallb su_membership (snd (cu_remove_all s ms mbs)) = true.
+Proof.
+  induction mbs as [|mb t IH]; intros s ms; [reflexivity|]. cbn [cu_remove_all].
+  specialize (IH (cu_remove_from s mb ms) ms). destruct (cu_remove_all (cu_remove_from s mb ms) ms t) as [s1 r].
+  cbn [snd forallb su_membership] in *. exact IH.
+Qed.
+
+Lemma set_flags_sus : forall s ms want, forallb su_flag (snd (cu_set_flags s ms want)) = true.
+Proof.
+  intros s ms want. unfold cu_set_flags. destruct (cu_find_ms_id s ms); [|reflexivity]. cbn [snd].
+  rewrite forallb_app. apply andb_true_iff. split; apply forallb_forall; intros x Hx; apply in_map_iff in Hx;
+    destruct Hx as [f [E _]]; subst x; reflexivity.
+Qed.
+
+Theorem mailboxes_updated_order : forall s e rid mboxes flags s1 sus,
+  cu_tx s e (UMessageMailboxesUpdated rid mboxes flags) = Some (s1, sus) ->
+  exists a b, sus = a ++ b /\ forallb su_membership a = true /\ forallb su_flag b = true.
+Proof.
+  intros s e rid mboxes flags s1 sus H. cbn [cu_tx] in H.
+  destruct (cu_mem cu_recovery_rid mboxes); [discriminate|].
+  destruct (cu_find_ms_rid s rid) as [m|]; [|discriminate].
+  unfold cu_set_mailboxes in H.
+  destruct (cu_add_each s (ms_id m) rid _) as [[sa a]|] eqn:Ea; [|discriminate].
+  pose proof (remove_all_sus (filter (fun mb => negb (cu_mem mb (cu_translate s mboxes))) (cu_ms_mailboxes s (ms_id m))) sa (ms_id m)) as Hr.
+  destruct (cu_remove_all sa (ms_id m) _) as [sb r]. cbn [snd] in Hr.
+  pose proof (set_flags_sus sb (ms_id m) flags) as Hf.
+  destruct (cu_set_flags sb (ms_id m) flags) as [sc b]. cbn [snd] in Hf.
+  injection H as _ H. subst sus. exists (a ++ r), b. split; [reflexivity|]. split; [|exact Hf].
+  rewrite forallb_app, (add_each_sus _ _ _ _ _ _ Ea), Hr. reflexivity.
+Qed.
+
+(* a MailboxUpdated whose (canonical) name differs from the stored one — be it only in letter case: names are compared
+   exactly — renames that mailbox and nothing else *)
+Lemma mailbox_updated_effect : forall s e rid name m, rid <> cu_recovery_rid -> cu_find_mb_rid s rid = Some m ->
+  mb_name m <> cu_canon_name name ->
+  existsb (fun x => (mb_name x =? cu_canon_name name) && negb (mb_rid x =? rid)) (st_mb s) = false ->
+  exists s1 m1, cu_apply s e (UMailboxUpdated rid name) = (s1, AOk, []) /\ cu_find_mb_rid s1 rid = Some m1 /\
+    mb_name m1 = cu_canon_name name /\ mb_id m1 = mb_id m /\ mb_uidv m1 = mb_uidv m /\ mb_sub m1 = mb_sub m /\
+    st_ms s1 = st_ms s /\ st_me s1 = st_me s /\ st_seq s1 = st_seq s /\
+    (forall x, In x (st_mb s) -> mb_rid x <> rid -> In x (st_mb s1)).
+Proof.
+  intros s e rid name m H1 H2 H3 H4. unfold cu_apply. cbn [cu_tx]. apply N.eqb_neq in H1. rewrite H1, H2.
+  apply N.eqb_neq in H3. rewrite H3, H4.
+  set (g := fun x => if mb_rid x =? rid then mkMb (mb_id x) (mb_rid x) (cu_canon_name name) (mb_uidv x) (mb_sub x) else x).
+  assert (Hg : forall x, (mb_rid (g x) =? rid) = (mb_rid x =? rid)).
+  { intros x. unfold g. destruct (mb_rid x =? rid) eqn:E; [cbn [mb_rid]; exact E|exact E]. }
+  eexists. exists (g m). split; [reflexivity|]. unfold cu_with_mb. cbn [st_mb st_ms st_me st_seq]. fold g.
+  assert (Hgm : g m = mkMb (mb_id m) (mb_rid m) (cu_canon_name name) (mb_uidv m) (mb_sub m)).
+  { unfold g. apply find_some in H2. destruct H2 as [_ H2]. rewrite H2. reflexivity. }
+  repeat split.
+  - unfold cu_find_mb_rid. cbn [st_mb]. rewrite (find_map_pres _ g _ Hg). unfold cu_find_mb_rid in H2. rewrite H2. reflexivity.
+  - rewrite Hgm. reflexivity.
+  - rewrite Hgm. reflexivity.
+  - rewrite Hgm. reflexivity.
+  - rewrite Hgm. reflexivity.
+  - intros x Hx Hne. apply in_map_iff. exists x. split; [|exact Hx]. unfold g. apply N.eqb_neq in Hne. rewrite Hne. reflexivity.
 Qed.
